@@ -54,4 +54,35 @@ KERNELS = [
     K("src_bin_found", _H,
       r"return bins\(\) - 1;\s*\}\s*else\s*\{\s*return (.*?);",
       [(r"static_cast<tensor_size_t>\(std::distance\(begin, it\)\)", "it")], [("it", "Z")], "histogram", ["C20"]),
+    # ---- extension (C20_Float*): the shape of the position arithmetic, the index casts, the midpoint -----------
+    # (new group `pctpos`, so that the files of the first round are not recompiled)
+    # the position expression with the double conversions erased: for an integer percentage the real number it
+    # denotes is percentage*(size-1)/100, whose floor is this integer expression (C20_kernel_position pins it to the
+    # PrimFloat model; a re-associated expression such as `percentage / 100.0 * (size - 1)` translates but breaks it)
+    K("src_pct_pos_int", _S,
+      r"const double position\s*=\s*(.*?);",
+      [(r"static_cast<double>\(([^()]*)\)", r"(\1)"), (r"\b100\.0\b", "100")],
+      [("percentage", "Z"), ("size", "Z")], "pctpos", ["C20"]),
+    # lpos / rpos: the casts of std::floor(position) / std::ceil(position); anything else leaves the subset
+    # (`position + 0.5`) or breaks C20_kernel_indices (`lpos + 1`)
+    K("src_pct_lpos", _S,
+      r"const auto lpos\s*=\s*(.*?);",
+      [(r"std::floor\(position\)", "pos_floor"), (r"std::ceil\(position\)", "pos_ceil"),
+       (r"static_cast<decltype\(size\)>\((\w+)\)", r"\1")],
+      [("pos_floor", "Z"), ("pos_ceil", "Z")], "pctpos", ["C20"]),
+    K("src_pct_rpos", _S,
+      r"const auto rpos\s*=\s*(.*?);",
+      [(r"std::floor\(position\)", "pos_floor"), (r"std::ceil\(position\)", "pos_ceil"),
+       (r"static_cast<decltype\(size\)>\((\w+)\)", r"\1")],
+      [("pos_floor", "Z"), ("pos_ceil", "Z"), ("lpos", "Z")], "pctpos", ["C20"]),
+    # the midpoint of the two neighbours (repaired in /repo 985fdb5: the sum of two large values overflows): the sum and the
+    # two-branch result as integer expressions, `std::isfinite(sum)` being a boolean supplied by the model (`fin Op`);
+    # C20_kernel_indices pins both to `mid_shape` / `midpoint` of the polymorphic model
+    K("src_pct_sum", _S,
+      r"const auto rvalue\s*=\s*from_position\(rpos\);\s*const auto sum\s*=\s*(.*?);",
+      [], [("lvalue", "Z"), ("rvalue", "Z")], "pctpos", ["C20"]),
+    K("src_pct_mid", _S,
+      r"const auto sum\s*=\s*lvalue \+ rvalue;\s*return (.*?);",
+      [(r"std::isfinite\(sum\)", "sum_finite")],
+      [("lvalue", "Z"), ("rvalue", "Z"), ("sum", "Z"), ("sum_finite", "bool")], "pctpos", ["C20"]),
 ]
